@@ -253,15 +253,63 @@ def timing_rule(ctx):
                 [call(N("shunting_duration_between_activities_if_no_dead_head_trip")), call(N("shunting_duration_between_activities_if_dead_head_trip")),
                  call(LOC + "::travel_time"), call(ND("end_location")), call(ND("start_location"))],
                 "turnaround = minimal shunting at the same location, else dead-head travel time plus dead-head shunting")
-    getter(ctx, "R3.same-location-shunting", N("shunting_duration_between_activities_if_no_dead_head_trip"),
-           [field(SH, "minimal")], [field(SH, "dead_head_trip")], "without a dead-head trip only the minimal shunting time applies")
-    getter(ctx, "R3.dead-head-shunting", N("shunting_duration_between_activities_if_dead_head_trip"),
-           [field(SH, "dead_head_trip")], [field(SH, "minimal")], "with a dead-head trip only the dead-head shunting time applies, on each non-depot side")
+    must_depend(ctx, "R3.turnaround-leaf-inputs", "T1", md, "ret",
+                [field(SH, "minimal"), field(SH, "dead_head_trip"), call(LOC + "::travel_time"), call(ND("end_location")), call(ND("start_location"))],
+                "the turnaround uses both shunting times, the dead-head travel time and both locations")
+    h_same = N("shunting_duration_between_activities_if_no_dead_head_trip")
+    h_dht = N("shunting_duration_between_activities_if_dead_head_trip")
+    if h_same in ctx.prog.bodies and h_dht in ctx.prog.bodies:
+        getter(ctx, "R3.same-location-shunting", h_same,
+               [field(SH, "minimal")], [field(SH, "dead_head_trip")], "without a dead-head trip only the minimal shunting time applies")
+        getter(ctx, "R3.dead-head-shunting", h_dht,
+               [field(SH, "dead_head_trip")], [field(SH, "minimal")], "with a dead-head trip only the dead-head shunting time applies, on each non-depot side")
+    else:
+        turnaround_branches(ctx, md)
     for fn, a, b in (("dead_head_time_between", "travel_time", None), ("dead_head_distance_between", "distance", None)):
         call_arg_provenance(ctx, "R3.%s" % fn, N(fn), LOC + "::" + a, {
             1: ("from", [call(ND("end_location")), "param:2"], [call(ND("start_location")), "param:3"]),
             2: ("to", [call(ND("start_location")), "param:3"], [call(ND("end_location")), "param:2"]),
         })
+
+
+def turnaround_branches(ctx, md):
+    """the two helpers were inlined: decide the same thing on the branches of the location comparison"""
+    o, fd = ctx.require_fn("R3.shunting-per-branch", "T1", md,
+                           "at the same location only the minimal shunting time is used, otherwise only the dead-head shunting time (plus travel time)")
+    if fd is None:
+        return
+    sw = None
+    for b, (ins, uses) in fd.switches.items():
+        d = direct_def_instr(fd, ins.ops[0])
+        if d is not None and d.kind == "call" and d.decl in ("core::cmp::PartialEq::eq", "core::cmp::PartialEq::ne"):
+            at = fd.slice_operand_pure(d, d.args[0])["atoms"] | fd.slice_operand_pure(d, d.args[1])["atoms"]
+            if call(ND("end_location")) in at and call(ND("start_location")) in at:
+                sw = (ins, d.decl.endswith("::eq"))
+    if sw is None or not sw[0].targets:
+        ctx.undecided(o, "location comparison not recognised")
+        return
+    ins, is_eq = sw
+    false_bb, true_bb = ins.targets[0][1], ins.otherwise
+    same_bb, other_bb = (true_bb, false_bb) if is_eq else (false_bb, true_bb)
+    rs, ro = fd.cfg.reachable_from(same_bb), fd.cfg.reachable_from(other_bb)
+    only_same, only_other = rs - ro, ro - rs
+
+    def reads(blocks, fld):
+        for i2 in fd.body.instrs():
+            if i2.bb in blocks:
+                for op in i2.ops + i2.args:
+                    if op.place is not None and field(SH, fld) in fd.place_atoms(op.place):
+                        return True
+        return False
+    bad = []
+    if reads(only_same, "dead_head_trip"):
+        bad.append("the same-location branch reads the dead-head shunting time")
+    if reads(only_other, "minimal"):
+        bad.append("the dead-head branch reads the minimal shunting time")
+    if not reads(only_same, "minimal") or not reads(only_other, "dead_head_trip"):
+        ctx.undecided(o, "shunting reads not found on the two branches")
+        return
+    ctx.decide(o, not bad, "minimal only at the same location, dead-head shunting only otherwise", "; ".join(bad))
 
 
 def sorted_maps(ctx):
@@ -273,21 +321,27 @@ def sorted_maps(ctx):
     must_depend(ctx, "R2.predecessors-source", "T1", N("predecessors"), "ret",
                 [field(NETWORK, "vehicle_type_nodes_sorted_by_end"), call(N("can_reach")), call(ND("start_time")), "param:2", "param:3"],
                 "predecessors range over the by-end map of the type up to the node's start time and filter with can_reach")
-    # direction of the can_reach filter
-    for fn, first, second in (("successors", "capture-node", "candidate"), ("predecessors", "candidate", "capture-node")):
-        key = N(fn) + "::{closure#0}"
-        o, fd = ctx.require_fn("R2.%s-filter-direction" % fn, "T1", key,
-                               "%s keeps n iff can_reach(%s)" % (fn, "node, n" if fn == "successors" else "n, node"))
-        if fd is None:
+    # direction of the can_reach filter (whichever closure of the enumeration holds the test)
+    for fn in ("successors", "predecessors"):
+        o = ctx.ob("R2.%s-filter-direction" % fn, "T1", N(fn), "%s keeps n iff can_reach(%s)" % (fn, "node, n" if fn == "successors" else "n, node"))
+        if N(fn) not in ctx.prog.bodies:
+            ctx.anchor_gone(o, N(fn))
             continue
-        cs = calls_to(fd, N("can_reach"))
-        ok = len(cs) == 1
-        if ok:
-            a1 = fd.slice_operand_pure(cs[0], cs[0].args[1])["atoms"]
-            a2 = fd.slice_operand_pure(cs[0], cs[0].args[2])["atoms"]
-            cand1, cand2 = "param:2" in a1, "param:2" in a2
-            ok = (cand2 and not cand1) if fn == "successors" else (cand1 and not cand2)
-        ctx.decide(o, ok, "argument order as documented", "can_reach is called with the arguments in the other order")
+        found = []
+        for k in ctx.prog.family(N(fn)):
+            f2 = ctx.fd(k)
+            for c in calls_to(f2, N("can_reach")):
+                a1 = f2.slice_operand_pure(c, c.args[1])["atoms"]
+                a2 = f2.slice_operand_pure(c, c.args[2])["atoms"]
+                el1 = any(a.startswith("param:") and a != "param:1" for a in a1) if f2.body.is_closure else False
+                el2 = any(a.startswith("param:") and a != "param:1" for a in a2) if f2.body.is_closure else False
+                found.append((c, el1, el2))
+        if len(found) != 1 or found[0][1] == found[0][2]:
+            ctx.undecided(o, "the can_reach test of the enumeration was not recognised (%d call(s))" % len(found))
+            continue
+        c, el1, el2 = found[0]
+        ok = (el2 and not el1) if fn == "successors" else (el1 and not el2)
+        ctx.decide(o, ok, "argument order as documented", "can_reach is called with the arguments in the other order", loc=c.line())
     # keys of the two sorted maps
     o, fd = ctx.require_fn("R2.sorted-map-keys", "T1", N("new"), "the by-start map is keyed by start times, the by-end map by end times")
     if fd is not None:
@@ -318,9 +372,25 @@ def sorted_maps(ctx):
                 return kinds
             ks = key_kind(m["vehicle_type_nodes_sorted_by_start"])
             ke = key_kind(m["vehicle_type_nodes_sorted_by_end"])
-            ok = ks == {call(ND("start_time"))} and ke == {call(ND("end_time"))}
-            detail = "by_start keyed by %s, by_end keyed by %s" % (sorted(x.split("::")[-1] for x in ks), sorted(x.split("::")[-1] for x in ke))
-        ctx.decide(o, ok, detail, detail)
+            if not ks and not ke:
+                # the key construction was moved into a helper that receives the time getter: look at what is handed over
+                def handed(op):
+                    at = f2.slice_operand_pure(ins, op)["atoms"]
+                    return {x for x in ("start_time", "end_time") if ("fnref:" + ND(x)) in at}
+                hs, he = handed(m["vehicle_type_nodes_sorted_by_start"]), handed(m["vehicle_type_nodes_sorted_by_end"])
+                if hs == {"start_time"} and he == {"end_time"}:
+                    ok, detail = True, "by_start built with Node::start_time, by_end with Node::end_time (passed to a helper)"
+                elif hs and he and (hs == {"end_time"} or he == {"start_time"}):
+                    ok, detail = False, "by_start built with %s, by_end with %s" % (sorted(hs), sorted(he))
+                else:
+                    ok, detail = None, "key construction not recognised (by_start: %s, by_end: %s)" % (sorted(hs), sorted(he))
+            else:
+                ok = ks == {call(ND("start_time"))} and ke == {call(ND("end_time"))}
+                detail = "by_start keyed by %s, by_end keyed by %s" % (sorted(x.split("::")[-1] for x in ks), sorted(x.split("::")[-1] for x in ke))
+        if ok is None:
+            ctx.undecided(o, detail)
+        else:
+            ctx.decide(o, ok, detail, detail)
 
 
 def overflow_depot(ctx):
